@@ -452,6 +452,76 @@ func genC15(g *G) {
 		}
 		g.Emit(J{"op": "agg.mode", "f": f, "values": vals}, "random", "f="+S(f))
 	}
+	// wide lists (up to the 31 oracles a deployment can have) with many distinct values: one value is reported
+	// f, f+1 or more times at positions spread over the whole list, the rest are singletons and pairs
+	for i := 0; i < g.N(400, 6000); i++ {
+		f := g.R.Intn(4)
+		m := 8 + g.R.Intn(24)
+		k := []int{f, f + 1, f + 1, f + 2, 2 * (f + 1)}[g.R.Intn(5)]
+		if k > m {
+			k = m
+		}
+		rep := svJ(llo.ToDecimal(decimal.New(int64(g.R.Intn(2000)), int32(-g.R.Intn(3)))))
+		vals := []any{}
+		for j := 0; j < k; j++ {
+			vals = append(vals, rep)
+		}
+		next := int64(5000)
+		for len(vals) < m {
+			v := svJ(llo.ToDecimal(decimal.New(next, 0)))
+			next += int64(1 + g.R.Intn(3))
+			vals = append(vals, v)
+			if g.R.Intn(5) == 0 && len(vals) < m && f >= 1 {
+				vals = append(vals, v) // a pair: still below f+1 unless f = 1
+			}
+		}
+		g.R.Shuffle(len(vals), func(a, b int) { vals[a], vals[b] = vals[b], vals[a] })
+		if k > 0 && g.R.Intn(2) == 0 {
+			// the repeated value first and last: every other candidate is first seen in between
+			for j, v := range vals {
+				if cdcSame(v, rep) {
+					vals[0], vals[j] = vals[j], vals[0]
+					break
+				}
+			}
+			for j := len(vals) - 1; j > 0; j-- {
+				if cdcSame(vals[j], rep) {
+					vals[len(vals)-1], vals[j] = vals[j], vals[len(vals)-1]
+					break
+				}
+			}
+		}
+		g.Emit(J{"op": "agg.mode", "f": f, "values": vals}, "wide-list", "f="+S(f))
+	}
+	// values whose serialized forms are related (one is the other followed by zero bytes, or shifted by whole
+	// bytes): coefficients c and c·256^k at the same exponent; votes for them must not pool
+	for i := 0; i < g.N(300, 4000); i++ {
+		f := 1 + g.R.Intn(3)
+		c := int64(1 + g.R.Intn(255))
+		e := int32(-g.R.Intn(4))
+		sh := []int64{256, 65536, 1 << 24, 1 << 32}[g.R.Intn(4)]
+		a, b := svJ(llo.ToDecimal(decimal.New(c, e))), svJ(llo.ToDecimal(decimal.New(c*sh, e)))
+		vals := []any{}
+		na := g.R.Intn(f + 1)
+		nb := f + 1 - na - g.R.Intn(2) // together f or f+1, neither alone more than f
+		if nb < 0 {
+			nb = 0
+		}
+		if nb > f {
+			nb = f
+		}
+		for j := 0; j < na; j++ {
+			vals = append(vals, a)
+		}
+		for j := 0; j < nb; j++ {
+			vals = append(vals, b)
+		}
+		for j := g.R.Intn(2*f + 1); j > 0; j-- {
+			vals = append(vals, svJ(llo.ToDecimal(decimal.New(int64(7000+j), e))))
+		}
+		g.R.Shuffle(len(vals), func(x, y int) { vals[x], vals[y] = vals[y], vals[x] })
+		g.Emit(J{"op": "agg.mode", "f": f, "values": vals}, "byte-shifted-coefficients", "f="+S(f))
+	}
 	// exactly f and exactly f+1 agreeing
 	for f := 0; f <= 3; f++ {
 		for _, k := range []int{f, f + 1} {
